@@ -157,6 +157,7 @@ func generate(r *simrt.Rand, pf *Profile) (Cfg, *Program) {
 			qc.FEnq = pick(r, []int{0, 0, 10, 30})
 			qc.FDeq = pick(r, []int{0, 0, 10, 30})
 			qc.FAck = pick(r, []int{0, 0, 10, 30})
+			qc.FAckLost = pick(r, []int{0, 0, 15})
 		}
 		if k > qkPrio && len(pf.AckStall) > 0 {
 			qc.FAckStall = pick(r, pf.AckStall)
